@@ -654,6 +654,13 @@ class ContractionProcessor:
     ):
         compute_con_cost = parse_minimize_for_optimal(minimize)
 
+        # n.b. the cap is doubled until a path is found: it needs to be a
+        # python number (a fixed width, e.g. numpy, integer overflows) and
+        # positive for the doubling to get anywhere
+        if not isinstance(cost_cap, int):
+            cost_cap = float(cost_cap)
+        cost_cap = max(cost_cap, 1)
+
         nterms = len(where)
         contractions = [{} for _ in range(nterms + 1)]
         # we use linear index within terms given during optimization, this maps
